@@ -4,7 +4,7 @@ use std::sync::atomic::{AtomicBool, AtomicU32, Ordering};
 use vcore::proptest::prelude::*;
 use vcore::{Cx, Level, Res, Session};
 
-const RULE: &str = "a case is a scenario interpreted against a real emit_otlp emitter and the scripted local collector: transport {HTTP/JSON, HTTP/protobuf, gRPC} x gzip on/off x any non-empty subset of the three signals; per signal one small 'plug' event whose request the collector holds open, then 2-9 events with 300-700 KiB (sometimes tiny or >1 MiB) string payloads that accumulate into ONE batch which emit splits into 1..5+ size-limited requests; the collector answers the n-th request of that batch by script {ack, 4xx/5xx, non-zero grpc-status in trailers or in a Trailers-Only response, bare HTTP error on gRPC, close before reading, read then close, stall past the request timeout (30 s, scaled by hook H3) without answering / after the response HEADERS / after a fragment of the response body, wedge the whole connection (open, never answering again, reading or not, while new connections work), ack then close}; optionally one signal's endpoint is down (refused / reset / 503) for the whole case; the application ends with blocking_flush or by dropping the emitter (while batches are queued, or while a failed request waits for its back-off). Families: split (no fault), fault (1-2 scripted failures), stall, outage, drop. Non-trivial = some signal's batch needed >= 2 requests, or >= 1 request failed.";
+const RULE: &str = "a case is a scenario interpreted against a real emit_otlp emitter and the scripted local collector: transport {HTTP/JSON, HTTP/protobuf, gRPC} x gzip on/off x any non-empty subset of the three signals; per signal one small 'plug' event whose request the collector holds open, then 2-9 events with 300-700 KiB (sometimes tiny or >1 MiB) string payloads that accumulate into ONE batch which emit splits into 1..5+ size-limited requests; the collector answers the n-th request of that batch by script {ack, 4xx/5xx, non-zero grpc-status in trailers or in a Trailers-Only response, bare HTTP error on gRPC, close before reading, read then close, stall past the request timeout (30 s, scaled by hook H3) without answering / after the response HEADERS / after a fragment of the response body, wedge the whole connection (open, never answering again, reading or not, while new connections work), ack then close}; optionally one signal's endpoint is down (refused / reset / 503) for the whole case; the application ends with blocking_flush or by dropping the emitter (while batches are queued, or while a failed request waits for its back-off). Families: split (no fault), fault (1-2 scripted failures), stall, outage, drop, exhaust (batch A fails on every attempt until emit gives it up, then batch B whose first request fails once and must be re-sent and acknowledged). Non-trivial = some signal's batch needed >= 2 requests, or >= 1 request failed.";
 
 /// Bounds shrinking cost: every evaluation of a scenario costs 0.1-30 s of real time.
 struct Guard {
@@ -230,6 +230,48 @@ fn scenario(wire: Wire, family: Family, thorough: bool) -> BoxedStrategy<Scenari
     }
 }
 
+fn exhaust_case(wire: Wire) -> BoxedStrategy<c12::exhaust::Exhaust> {
+    // every attempt of batch A fails the same cheap way (11 attempts: no stalls here)
+    let fault_a = match wire {
+        Wire::Grpc => prop_oneof![
+            (1u8..=16).prop_map(Fault::GrpcStatus),
+            (1u8..=16).prop_map(Fault::GrpcTrailersOnly),
+            prop::sample::select(vec![429u16, 503]).prop_map(Fault::Status),
+            Just(Fault::CloseBeforeRead),
+            Just(Fault::ReadThenClose),
+        ]
+        .boxed(),
+        _ => prop_oneof![
+            2 => prop::sample::select(vec![429u16, 500, 503]).prop_map(Fault::Status),
+            1 => Just(Fault::CloseBeforeRead),
+            1 => Just(Fault::ReadThenClose),
+        ]
+        .boxed(),
+    };
+    // batch B's first request fails once, any retryable way except the ones that only hurt the NEXT request
+    let fault_b = fault_kind(wire, false).prop_map(|f| if f == Fault::AckThenClose { Fault::ReadThenClose } else { f });
+    (
+        any::<bool>(),
+        prop::sample::select(Signal::ALL.to_vec()),
+        any::<bool>(),
+        fault_a,
+        1u8..=3,
+        prop::collection::vec(size(), 1..=5),
+        fault_b,
+    )
+        .prop_map(move |(gzip, signal, all_signals, fault_a, a_events, b_sizes_kib, fault_b)| c12::exhaust::Exhaust {
+            wire,
+            gzip,
+            signal,
+            all_signals,
+            fault_a,
+            a_events,
+            b_sizes_kib,
+            fault_b,
+        })
+        .boxed()
+}
+
 fn main() {
     timing::init();
 
@@ -276,6 +318,8 @@ fn main() {
             s.require("outage:503", if quick { 4 } else { 200 });
             s.require("ending:drop-while-queued", if quick { 8 } else { 200 });
             s.require("ending:drop-during-backoff", if quick { 8 } else { 200 });
+            // a batch that used up its retry budget, then a batch that needs one retry
+            s.require("retry-budget-exhausted", if quick { 6 } else { 120 });
 
             // (family, cases quick, cases thorough, parallel generator instances)
             let plan: [(Family, &str, u64, u64, usize); 5] = [
@@ -288,6 +332,19 @@ fn main() {
             let wires = [(Wire::HttpJson, "http-json"), (Wire::HttpProto, "http-protobuf"), (Wire::Grpc, "grpc")];
             // Cases mostly sleep (back-off, timeouts): every generator runs in its own thread at once.
             std::thread::scope(|scope| {
+                // family `exhaust` (its own scenario type): each case sleeps through a whole retry budget
+                for (wire, wname) in wires {
+                    for inst in 0..2 {
+                        let name = format!("exhaust-{wname}-{inst}");
+                        let cases = s.n(2, 40);
+                        std::thread::Builder::new()
+                            .stack_size(16 << 20)
+                            .spawn_scoped(scope, move || {
+                                s.gen(&name, cases, || exhaust_case(wire), |sc, cx| res(c12::exhaust::check(sc, cx), |p| s.inconclusive(format!("harness: {p}"))));
+                            })
+                            .unwrap();
+                    }
+                }
                 for (family, fname, q, t, instances) in plan {
                     for (wire, wname) in wires {
                         for inst in 0..instances {
